@@ -9,7 +9,7 @@ Three things live here:
     transliterations, cross-validated against `coq_eval` on every Coq-evaluated case by vplib/props/c07.py.
 
 python model AST
-  expr    ("col", q|None, c) ("lit",) ("star", q|None) ("app", f, [e]) ("win", f, [a], [p], [o]) ("sub", query)
+  expr    ("col", q|None, c) ("lit",) ("star", q|None) ("app", f, [e]) ("win", f, [a], [p], [o], frame|None) ("sub", query); frame = (units 1|2|3, bound, bound|None), bound = ("cur",)|("prec", n|None)|("fol", n|None)
   query   ("query", rec, [(name, query)], setexpr, [order exprs], (limit, offset, offset_rows, fetch))
   setexpr ("select", dkind, [don], [items], [trefs], [w], [g], [h]) ("setop", op, quant, l, r) ("squery", query)
   item    ("iexpr", e, alias) ("iwild", q, ek, [excl])
